@@ -13,6 +13,8 @@ import (
 
 	"github.com/tonistiigi/fsutil"
 	"github.com/tonistiigi/fsutil/types"
+	"strconv"
+	"sync/atomic"
 )
 
 func init() {
@@ -351,6 +353,16 @@ func childHostile(args []string) {
 	xo := parseXferOpts(opt)
 	script := parseScript(o.arr("script"))
 	answer := o.boolean("answer") // answer REQs for regular files with pattern data of stat.Size, then FIN handshake
+	// after_eof: {id: n} - once the request for id has been answered and terminated, n more content bytes are sent for the same id
+	afterEOF := map[uint32]int{}
+	if m, ok := o["after_eof"].(map[string]interface{}); ok {
+		for k, v := range m {
+			if id, err := strconv.Atoi(k); err == nil {
+				afterEOF[uint32(id)] = int(num64(v))
+			}
+		}
+	}
+	var afterEOFSent int32
 	ctx, cancel := context.WithCancel(context.Background())
 	defer cancel()
 	s, r, sh := newPipe(ctx, &xo.cfg, log)
@@ -417,6 +429,14 @@ func childHostile(args []string) {
 					if s.SendMsg(&types.Packet{Type: types.PACKET_DATA, ID: b.p.ID}) != nil {
 						return
 					}
+					if n, ok := afterEOF[b.p.ID]; ok {
+						delete(afterEOF, b.p.ID)
+						atomic.AddInt32(&afterEOFSent, 1)
+						if s.SendMsg(&types.Packet{Type: types.PACKET_DATA, ID: b.p.ID, Data: patternData("late", n)}) != nil {
+							return
+						}
+						s.SendMsg(&types.Packet{Type: types.PACKET_DATA, ID: b.p.ID})
+					}
 				case types.PACKET_FIN:
 					s.SendMsg(&types.Packet{Type: types.PACKET_FIN})
 					return
@@ -437,7 +457,7 @@ func childHostile(args []string) {
 	blocked := waitBoth(done, sh, 15*time.Second)
 	alive, aliveAt := waitQuiesce(300 * time.Millisecond)
 	out := map[string]interface{}{"recv": errClass(recvErr, recvRet), "blocked": blocked, "log": logJSON(log, false),
-		"late": []int32{s.late, r.late}, "alive": alive, "alive_at": aliveAt}
+		"late": []int32{s.late, r.late}, "alive": alive, "alive_at": aliveAt, "after_eof_sent": atomic.LoadInt32(&afterEOFSent)}
 	if recvErr != nil {
 		out["recverr"] = recvErr.Error()
 	}
